@@ -29,6 +29,7 @@ import time
 import vlib
 import lcd_par
 import c19_seq
+import c19_tie
 import c16
 
 FINISH = dict(level="proof",
@@ -382,6 +383,7 @@ def campaign(ctx, ks):
         ok = check_run(ctx, name, ks[name], job, r, full.get(name), tpcp.get(name))
         if not ok:
             continue
+        c19_tie.note_parallel(name, job, r)      # replayed through the regenerated control flow (c19_tie.run)
         nk = sum(1 for e in r["events"] if e["ev"] == "kill")
         key = "T=%s %s" % (job["timeout"], "cut" if nk else ("flag" if r["timed_out"] else "complete"))
         hist[key] = hist.get(key, 0) + 1
@@ -479,6 +481,7 @@ def edges(ctx, ks, full):
             continue
         if not check_run(ctx, name, sp, j, r, full.get(name), None):
             continue
+        c19_tie.note_parallel(name, j, r)
         kills = [e for e in r["events"] if e["ev"] == "kill"]
         rp = {"kind": "run", "name": name, "spec": sp, "job": {k: v for k, v in j.items() if k != "spec"}}
         if r["timed_out"] and not kills and r["lcd"] == full.get(name):
@@ -665,6 +668,7 @@ def seq_small(ctx):
         for j, r in zip(js, rs):
             if not check_seq_run(ctx, n, ks[n], j, r, refs[n]):
                 continue
+            c19_tie.note_sequential(n, j, r)
             key = "%s" % ("cut" if r["timed_out"] else "complete")
             hist[key] = hist.get(key, 0) + 1
             ctx.sample({"kernel": n, "lines": r["klen"], "branch": "sequential", "timeout": j["timeout"], "clock_us_per_reading": j["clock"]["synthetic_us"],
@@ -845,6 +849,8 @@ def run(ctx):
     seq_small(ctx)
     seq_real(ctx)
     edges(ctx, ks, full)
+    # translator tie for the control flow: regenerate it from the current source, re-check PropsGen/C19gen.v against it, replay the recorded runs
+    c19_tie.run(ctx, "PropsGen/C19gen.v", "C19", sequential=True)
     cases = [("long_LCD", 1, True), ("gs+pad52", 10, False), ("gs+pad52", -1, False)]
     if RULE["seq"] == "SeqDeadlinePerPath":     # the CLI on the sequential branch: cut -> warning, in time -> none
         ks = dict(ks, fib40={"isa": "x86", "arch": "zen2", "text": lcd_par.gen_fib_x86(40)}, fib20={"isa": "x86", "arch": "zen2", "text": lcd_par.gen_fib_x86(20)})
